@@ -1537,7 +1537,7 @@ static RunOut run_plan(const J &plan, uint64_t fill_override, bool use_override)
   g_viol = Violation(); g_viol_extra = 0; g_trace_hash = 0xcbf29ce484222325ULL; g_events = 0; g_event_text.clear(); g_stats.clear();
   g_run_seed = (uint64_t)plan.i("seed");
   g_phase = "run";
-  alarm(VARIANT[0] == 'r' ? 60 : 600);   // (fallback-entropy runs are cheap: a minute there means a loop that never ends)  a run is milliseconds to a few seconds (rarely a minute: GiB regions, ten million rounds); anything near this is a generator mistake, never a verdict
+  alarm(VARIANT[0] == 'r' ? 60 : 1500);   // (fallback-entropy runs are cheap: a minute there means a loop that never ends)  a run is milliseconds to a few seconds (rarely a minute: GiB regions, ten million rounds); anything near this is a generator mistake, never a verdict
   const std::string &p = g_prop;
   r.o_ref = (p == "C07" || p == "C08" || p == "C17" || p == "C14" || p == "C09" || p == "C12");
   r.o_c05 = p == "C05"; r.o_c09 = p == "C09"; r.o_c12 = p == "C12"; r.o_c14 = p == "C14"; r.o_c15 = p == "C15"; r.o_c17 = (p == "C17" || p == "C08");
